@@ -35,6 +35,12 @@ namespace sim
       { "DISABLE", 1, 0 },
       { "ENABLE", 1, 0 },
       { "STATE", 1, 0 },
+      { "CONTROL_CS", 1, 0 },
+      { "CONTROL_DA", 1, 0 },
+      { "ACTION_CAS", 1, 0 },
+      { "ACTION_CASS", 1, 0 },
+      { "DISABLE_CA", 1, 0 },
+      { "STATE_CC", 1, 0 },
    };
 
    const AtomMeta matom_meta[ N_MATOMS ] = {
